@@ -101,6 +101,15 @@ func verifC09Run(rt *rapid.T, c *kit.Case) {
 			}
 			s.doFinalize()
 		},
+		"finalizeAll": func(t *rapid.T) {
+			// shardProcessor.updateState walks over every header that became final (shardblock.go:994-1034)
+			if s.unfinalized() < 2 {
+				t.Skip()
+			}
+			for s.unfinalized() > 0 {
+				s.doFinalize()
+			}
+		},
 		"rollback": func(t *rapid.T) {
 			if s.unfinalized() == 0 || (s.blocked() && !allowBlockedRollback) {
 				t.Skip()
@@ -136,8 +145,8 @@ func verifC09Run(rt *rapid.T, c *kit.Case) {
 }
 
 func TestVerifC09_PruningHistories(t *testing.T) {
-	kit.Run(t, "C09", kit.Budget{Quick: 450, Thorough: 4000, Steps: 25},
-		"histories of ~25 events (block with 1-3 txs incl. reverted txs / empty block / re-applied rolled-back block / finalize / rollback / enter+exit pruning-blocked mode) over 3-8 accounts with data tries, pruning queue 0..3, eviction-waiting-list cache 1..4, pruning buffer 1000 (completeness checked) or 1..5 (safety only); after every event every live root is rebuilt from the database alone and compared with the model; after every PruneTrie issued while unblocked every node owned only by pruned roots must be gone. non-trivial = >=1 rollback, >=1 prune issued while blocked, >=1 removal of an account with a data trie, and a finalize after them; distinct by event history",
+	kit.Run(t, "C09", kit.Budget{Quick: 450, Thorough: 4000, Steps: 32},
+		"histories of ~32 events (block with 1-3 txs incl. reverted txs / empty block / re-applied rolled-back block / finalize / rollback / enter+exit pruning-blocked mode) over 3-8 accounts with data tries, pruning queue 0..3, eviction-waiting-list cache 1..4, pruning buffer 1000 (completeness checked) or 1..5 (safety only); after every event every live root is rebuilt from the database alone and compared with the model; after every PruneTrie issued while unblocked every node owned only by pruned roots must be gone. non-trivial = >=1 rollback, >=1 prune issued while blocked, >=1 removal of an account with a data trie, and a finalize after them; distinct by event history",
 		verifC09Run)
 }
 
